@@ -330,8 +330,14 @@ func Collect(ctx *Ctx, outs []JobOutcome, onDeath func(o JobOutcome) *Violation)
 	var vs []*Violation
 	for _, o := range outs {
 		if o.Res == nil && o.TimedOut {
-			ctx.Cov.Cap(o.Err)
-			continue
+			// a worker winds down on its own at the deadline; one that had to be stopped long after it was blocked
+			if onDeath != nil {
+				if v := onDeath(o); v != nil {
+					vs = append(vs, v)
+					continue
+				}
+			}
+			Harnessf("%s (a worker that does not wind down at the deadline is blocked: not counted as 'held')\nstderr: %s", o.Err, o.Stderr)
 		}
 		if o.Res == nil {
 			if onDeath != nil {
